@@ -108,8 +108,9 @@ Theorem visit_reaches_all :
 Proof.
   intros T H e.
   pose proof (table_ok_limit T H) as HL.
-  induction e as [id th | t id kinds | loc f IHf bs | loc f IHf | f IHf | f IHf | f IHf | f IHf b
+  induction e as [id th | id | t id kinds | loc f IHf bs | loc f IHf | f IHf | f IHf | f IHf | f IHf b
                   | s IHs g IHg | s IHs g1 IHg1 g2 IHg2 | f IHf c | f IHf ts | f IHf].
+  - simpl. constructor.
   - simpl. constructor.
   - cbn [visited visitor_key class_of refs].
     use_table H "bound_mem_functor" [VMember "obj_"].
@@ -387,23 +388,28 @@ Qed.
 
 Lemma call_doc_nonvoid : forall e, returns_value e = true -> forall args, snd (call_doc e args) <> RVoid.
 Proof.
-  induction e as [id th | t id kinds | loc f IHf bs | loc f IHf | f IHf | f IHf | f IHf | f IHf b
+  induction e as [id th | id | t id kinds | loc f IHf bs | loc f IHf | f IHf | f IHf | f IHf | f IHf b
                   | s IHs g IHg | s IHs g1 IHg1 g2 IHg2 | f IHf c | f IHf ts | f IHf];
     intros Hr args; cbn [returns_value] in Hr; cbn [call_doc].
   - destruct th; simpl; discriminate.
+  - destruct args; simpl; discriminate.
   - simpl; discriminate.
   - destruct loc; apply IHf; exact Hr.
   - destruct loc; apply IHf; exact Hr.
   - apply IHf; exact Hr.
-  - apply IHf; exact Hr.
+  - specialize (IHf Hr args). destruct (call_doc f args) as [l r]. simpl in *.
+    destruct r; simpl; try discriminate. exact IHf.
   - discriminate.
   - destruct (call_doc f args) as [l r]. destruct r; simpl; discriminate.
-  - destruct (call_doc g args) as [l1 r1]. destruct r1; try (simpl; discriminate).
-    specialize (IHs Hr [mkArg v ICopy]). destruct (call_doc s [mkArg v ICopy]) as [l2 r2]. exact IHs.
+  - destruct (call_doc g args) as [l1 r1]. destruct r1 as [v|a| |]; cbn [result_arg]; try (simpl; discriminate).
+    + specialize (IHs Hr [mkArg v ICopy]). destruct (call_doc s [mkArg v ICopy]) as [l2 r2]. exact IHs.
+    + specialize (IHs Hr [a]). destruct (call_doc s [a]) as [l2 r2]. exact IHs.
   - destruct (call_doc g1 args) as [l1 r1]. destruct (call_doc g2 args) as [l2 r2].
-    destruct r1; try (simpl; discriminate). destruct r2; try (simpl; discriminate).
-    specialize (IHs Hr [mkArg v ICopy; mkArg v0 ICopy]).
-    destruct (call_doc s [mkArg v ICopy; mkArg v0 ICopy]) as [l3 r3]. exact IHs.
+    destruct r1 as [v1|b1| |]; cbn [result_arg]; try (simpl; discriminate);
+      (destruct r2 as [v2|b2| |]; cbn [result_arg]; try (simpl; discriminate));
+      match goal with
+      | |- context [call_doc s ?xs] => specialize (IHs Hr xs); destruct (call_doc s xs) as [l3 r3]; exact IHs
+      end.
   - specialize (IHf Hr args). destruct (call_doc f args) as [l r]. simpl in *.
     destruct r; try discriminate. exact IHf.
   - apply IHf; exact Hr.
@@ -430,27 +436,56 @@ Proof.
   intros a. rewrite removelast_firstn_len, firstn_length. lia.
 Qed.
 
+(* results up to the identity of a returned reference *)
+Lemma rv_cases : forall r r0, result_val r = result_val r0 ->
+  (exists v, r = RInt v /\ r0 = RInt v) \/
+  (exists a b, r = RRef a /\ r0 = RRef b /\ a_v a = a_v b) \/
+  (r = RVoid /\ r0 = RVoid) \/ (r = RThrow /\ r0 = RThrow).
+Proof.
+  intros r r0 H; destruct r as [v|a| |], r0 as [v0|a0| |]; simpl in H; try discriminate.
+  - injection H as Hv. subst. left. exists v0. split; reflexivity.
+  - injection H as Hv. right; left. exists a, a0. repeat split; assumption.
+  - right; right; left. split; reflexivity.
+  - right; right; right. split; reflexivity.
+Qed.
+
+Lemma first_arg_ref_sv : forall a1 a2, sv a1 a2 -> result_val (first_arg_ref a1) = result_val (first_arg_ref a2).
+Proof.
+  unfold sv. intros a1 a2 H. destruct a1 as [|x r1], a2 as [|y r2]; simpl in H; try discriminate; [reflexivity|].
+  injection H as Hv Hr. simpl. rewrite Hv. reflexivity.
+Qed.
+
+Lemma to_long_rv : forall r r0, result_val r = result_val r0 -> to_long r = to_long r0.
+Proof.
+  intros r r0 H.
+  destruct (rv_cases _ _ H) as [[v [-> ->]]|[[ra [rb [-> [-> Hab]]]]|[[-> ->]|[-> ->]]]]; simpl; congruence.
+Qed.
+
 (* values only: any way the pack is handed on *)
 Lemma call_sv : forall M S, slices_ok S = true ->
   forall e d a1 a2, sv a1 a2 -> wt e (List.length a2) = true -> wf_values e = true ->
-    exists l, call M S e d a1 = COk l (snd (call_doc e a2)) /\
-              log_values l = log_values (fst (call_doc e a2)).
+    exists l r, call M S e d a1 = COk l r /\ result_val r = result_val (snd (call_doc e a2)) /\
+                log_values l = log_values (fst (call_doc e a2)).
 Proof.
   intros M S HS.
-  induction e as [id th | t id kinds | loc f IHf bs | loc f IHf | f IHf | f IHf | f IHf | f IHf b
+  induction e as [id th | id | t id kinds | loc f IHf bs | loc f IHf | f IHf | f IHf | f IHf | f IHf b
                   | s IHs g IHg | s IHs g1 IHg1 g2 IHg2 | f IHf c | f IHf ts | f IHf];
     intros d a1 a2 Hsv Hwt Hwf; cbn [wt wf_values] in Hwt, Hwf;
     pose proof (sv_length _ _ Hsv) as Hlen.
   - (* FLeaf *)
-    cbn [call call_doc]. eexists; split; [|].
-    + rewrite (leaf_ret_sv id a1 a2 Hsv). reflexivity.
-    + cbn. unfold sv in Hsv. rewrite Hsv. reflexivity.
+    cbn [call call_doc fst snd]. rewrite (leaf_ret_sv id a1 a2 Hsv).
+    eexists; eexists; split; [reflexivity|split; [reflexivity|]].
+    cbn. unfold sv in Hsv. rewrite Hsv. reflexivity.
+  - (* FLeafRef *)
+    cbn [call call_doc fst snd].
+    eexists; eexists; split; [reflexivity|split; [apply first_arg_ref_sv; exact Hsv|]].
+    cbn. unfold sv in Hsv. rewrite Hsv. reflexivity.
   - (* FMem *)
-    cbn [call call_doc]. rewrite Hlen, Hwt.
+    cbn [call call_doc fst snd]. rewrite Hlen, Hwt.
     pose proof (apply_kinds_sv kinds a1 a2 Hsv) as Hk.
-    eexists; split.
-    + rewrite (leaf_ret_sv id _ _ Hk). reflexivity.
-    + cbn. unfold sv in Hk. rewrite Hk. reflexivity.
+    rewrite (leaf_ret_sv id _ _ Hk).
+    eexists; eexists; split; [reflexivity|split; [reflexivity|]].
+    cbn. unfold sv in Hk. rewrite Hk. reflexivity.
   - (* FBind *)
     destruct loc as [i|].
     + apply andb_true_iff in Hwt. destruct Hwt as [Hi Hwt]. apply Nat.leb_le in Hi.
@@ -487,34 +522,48 @@ Proof.
     cbn [call call_doc class_of]. apply IHf; try assumption.
     pose proof (pass_sv (mode_of M "retype_functor") d a1) as Hp. unfold sv in *; congruence.
   - (* FRetypeReturn *)
-    cbn [call call_doc class_of]. apply IHf; try assumption.
-    pose proof (pass_sv (mode_of M "retype_return_functor") d a1) as Hp. unfold sv in *; congruence.
+    cbn [call call_doc class_of].
+    destruct (IHf true (pass (mode_of M "retype_return_functor") d a1) a2) as [l [r [E [R V]]]]; try assumption.
+    { pose proof (pass_sv (mode_of M "retype_return_functor") d a1) as Hp. unfold sv in *; congruence. }
+    rewrite E. destruct (call_doc f a2) as [l0 r0]. cbn [cbind fst snd] in *.
+    exists l, (to_long r). split; [reflexivity|]. split; [|exact V].
+    rewrite (to_long_rv _ _ R). reflexivity.
   - (* FHideReturn *)
     cbn [call call_doc class_of].
-    destruct (IHf true (pass (mode_of M "retype_return_functor<void>") d a1) a2) as [l [E V]]; try assumption.
+    destruct (IHf true (pass (mode_of M "retype_return_functor<void>") d a1) a2) as [l [r [E [R V]]]]; try assumption.
     { pose proof (pass_sv (mode_of M "retype_return_functor<void>") d a1) as Hp. unfold sv in *; congruence. }
     rewrite E. destruct (call_doc f a2) as [l0 r0]. cbn [cbind fst snd] in *.
-    exists l. split; [reflexivity|exact V].
+    eexists; eexists; split; [reflexivity|]. split; [|exact V].
+    destruct (rv_cases _ _ R) as [[v [-> ->]]|[[ra [rb [-> [-> Hab]]]]|[[-> ->]|[-> ->]]]]; reflexivity.
   - (* FBindReturn *)
     cbn [call call_doc class_of].
-    destruct (IHf true (pass (mode_of M "bind_return_functor") d a1) a2) as [l [E V]]; try assumption.
+    destruct (IHf true (pass (mode_of M "bind_return_functor") d a1) a2) as [l [r [E [R V]]]]; try assumption.
     { pose proof (pass_sv (mode_of M "bind_return_functor") d a1) as Hp. unfold sv in *; congruence. }
     rewrite E. destruct (call_doc f a2) as [l0 r0]. cbn [cbind fst snd] in *.
-    exists l. split; [reflexivity|exact V].
+    eexists; eexists; split; [reflexivity|]. split; [|exact V].
+    destruct (rv_cases _ _ R) as [[v [-> ->]]|[[ra [rb [-> [-> Hab]]]]|[[-> ->]|[-> ->]]]]; reflexivity.
   - (* FCompose1 *)
     apply andb_true_iff in Hwt. destruct Hwt as [Hwg Hws].
     apply andb_true_iff in Hwf. destruct Hwf as [Hwf Hrg]. apply andb_true_iff in Hwf. destruct Hwf as [Hfs Hfg].
     cbn [call call_doc class_of].
-    destruct (IHg true (pass (mode_of M "compose1_functor") d a1) a2) as [l1 [E1 V1]]; try assumption.
+    destruct (IHg true (pass (mode_of M "compose1_functor") d a1) a2) as [l1 [r1 [E1 [R1 V1]]]]; try assumption.
     { pose proof (pass_sv (mode_of M "compose1_functor") d a1) as Hp. unfold sv in *; congruence. }
     rewrite E1. pose proof (call_doc_nonvoid g Hrg a2) as Hnv.
     destruct (call_doc g a2) as [lg rg]. cbn [cbind fst snd] in *.
-    destruct rg as [v| |].
-    + destruct (IHs true [mkArg v ICopy] [mkArg v ICopy]) as [l2 [E2 V2]]; try assumption; [apply sv_refl|].
-      rewrite E2. destruct (call_doc s [mkArg v ICopy]) as [ls rs]. cbn [cbind fst snd] in *.
-      exists (l1 ++ l2). split; [reflexivity|]. rewrite !log_values_app, V1, V2. reflexivity.
-    + contradiction.
-    + exists l1. split; [reflexivity|exact V1].
+    destruct (rv_cases _ _ R1) as [[v [-> ->]]|[[ra [rb [-> [-> Hab]]]]|[[-> ->]|[-> ->]]]];
+      try contradiction; cbn [result_arg];
+      lazymatch goal with
+      | |- context [call M S s true ?xs] =>
+          lazymatch goal with
+          | |- context [call_doc s ?ys] =>
+              destruct (IHs true xs ys) as [l2 [r2 [E2 [R2 V2]]]];
+              [unfold sv; simpl; congruence|assumption|assumption|];
+              rewrite E2; destruct (call_doc s ys) as [ls rs]; cbn [cbind fst snd] in *;
+              exists (l1 ++ l2), r2; split; [reflexivity|split; [exact R2|]];
+              rewrite !log_values_app, V1, V2; reflexivity
+          end
+      | |- _ => exists l1, RThrow; split; [reflexivity|split; [reflexivity|exact V1]]
+      end.
   - (* FCompose2 *)
     apply andb_true_iff in Hwt. destruct Hwt as [Hwt Hws]. apply andb_true_iff in Hwt. destruct Hwt as [Hw1 Hw2].
     apply andb_true_iff in Hwf. destruct Hwf as [Hwf Hr2]. apply andb_true_iff in Hwf. destruct Hwf as [Hwf Hr1].
@@ -522,25 +571,36 @@ Proof.
     cbn [call call_doc class_of].
     assert (Hpa : sv (pass (mode_of M "compose2_functor") d a1) a2).
     { pose proof (pass_sv (mode_of M "compose2_functor") d a1) as Hp. unfold sv in *; congruence. }
-    destruct (IHg1 true (pass (mode_of M "compose2_functor") d a1) a2) as [l1 [E1 V1]]; try assumption.
-    destruct (IHg2 true (pass (mode_of M "compose2_functor") d a1) a2) as [l2 [E2 V2]]; try assumption.
+    destruct (IHg1 true (pass (mode_of M "compose2_functor") d a1) a2) as [l1 [r1 [E1 [R1 V1]]]]; try assumption.
+    destruct (IHg2 true (pass (mode_of M "compose2_functor") d a1) a2) as [l2 [r2 [E2 [R2 V2]]]]; try assumption.
     rewrite E1, E2.
     pose proof (call_doc_nonvoid g1 Hr1 a2) as Hnv1. pose proof (call_doc_nonvoid g2 Hr2 a2) as Hnv2.
     destruct (call_doc g1 a2) as [lg1 rg1]. destruct (call_doc g2 a2) as [lg2 rg2]. cbn [cbind fst snd] in *.
-    destruct rg1 as [v1| |]; [|contradiction|]; (destruct rg2 as [v2| |]; [|contradiction|]).
-    + destruct (IHs true [mkArg v1 ICopy; mkArg v2 ICopy] [mkArg v1 ICopy; mkArg v2 ICopy]) as [l3 [E3 V3]];
-        try assumption; [apply sv_refl|].
-      rewrite E3. destruct (call_doc s [mkArg v1 ICopy; mkArg v2 ICopy]) as [ls rs]. cbn [cbind fst snd] in *.
-      exists (l1 ++ l2 ++ l3). split; [reflexivity|]. rewrite !log_values_app, V1, V2, V3. reflexivity.
-    + exists (l1 ++ l2). split; [reflexivity|]. cbn [fst]. rewrite !log_values_app, V1, V2. reflexivity.
-    + exists (l1 ++ l2). split; [reflexivity|]. cbn [fst]. rewrite !log_values_app, V1, V2. reflexivity.
-    + exists (l1 ++ l2). split; [reflexivity|]. cbn [fst]. rewrite !log_values_app, V1, V2. reflexivity.
+    destruct (rv_cases _ _ R1) as [[v1 [-> ->]]|[[b1 [c1 [-> [-> Hbc1]]]]|[[-> ->]|[-> ->]]]];
+      try contradiction;
+      (destruct (rv_cases _ _ R2) as [[v2 [-> ->]]|[[b2 [c2 [-> [-> Hbc2]]]]|[[-> ->]|[-> ->]]]];
+       try contradiction); cbn [result_arg];
+      lazymatch goal with
+      | |- context [call M S s true ?xs] =>
+          lazymatch goal with
+          | |- context [call_doc s ?ys] =>
+              destruct (IHs true xs ys) as [l3 [r3 [E3 [R3 V3]]]];
+              [unfold sv; simpl; congruence|assumption|assumption|];
+              rewrite E3; destruct (call_doc s ys) as [ls rs]; cbn [cbind fst snd] in *;
+              exists (l1 ++ l2 ++ l3), r3; split; [reflexivity|split; [exact R3|]];
+              rewrite !log_values_app, V1, V2, V3; reflexivity
+          end
+      | |- _ => exists (l1 ++ l2), RThrow; split; [reflexivity|split; [reflexivity|]];
+                cbn [fst]; rewrite !log_values_app, V1, V2; reflexivity
+      end.
   - (* FExcCatch *)
     cbn [call call_doc class_of].
-    destruct (IHf true (pass (mode_of M "exception_catch_functor") d a1) a2) as [l [E V]]; try assumption.
+    destruct (IHf true (pass (mode_of M "exception_catch_functor") d a1) a2) as [l [r [E [R V]]]]; try assumption.
     { pose proof (pass_sv (mode_of M "exception_catch_functor") d a1) as Hp. unfold sv in *; congruence. }
     rewrite E. destruct (call_doc f a2) as [l0 r0]. cbn [cbind fst snd] in *.
-    exists l. split; [reflexivity|exact V].
+    eexists; eexists; split; [reflexivity|]. split; [|exact V].
+    destruct (rv_cases _ _ R) as [[v [-> ->]]|[[ra [rb [-> [-> Hab]]]]|[[-> ->]|[-> ->]]]]; try reflexivity.
+    simpl. rewrite Hab. reflexivity.
   - (* FTrackObj *)
     cbn [call call_doc class_of]. apply IHf; try assumption.
     pose proof (pass_sv (mode_of M "track_obj_functor") d a1) as Hp. unfold sv in *; congruence.
@@ -551,8 +611,8 @@ Qed.
 Theorem call_eq_doc :
   forall M S, slices_ok S = true ->
   forall e d args, wt e (List.length args) = true -> wf_values e = true ->
-    exists l, call M S e d args = COk l (snd (call_doc e args)) /\
-              log_values l = log_values (fst (call_doc e args)).
+    exists l r, call M S e d args = COk l r /\ result_val r = result_val (snd (call_doc e args)) /\
+                log_values l = log_values (fst (call_doc e args)).
 Proof.
   intros M S HS e d args Hwt Hwf. apply call_sv; try assumption. apply sv_refl.
 Qed.
@@ -560,14 +620,14 @@ Qed.
 Theorem route_independent :
   forall M S, slices_ok S = true ->
   forall e args, wt e (List.length args) = true -> wf_values e = true ->
-    exists l1 l2 r, call M S e true args = COk l1 r /\ call M S (FSlot e) true args = COk l2 r /\
-                    log_values l1 = log_values l2.
+    exists l1 l2 r1 r2, call M S e true args = COk l1 r1 /\ call M S (FSlot e) true args = COk l2 r2 /\
+                        result_val r1 = result_val r2 /\ log_values l1 = log_values l2.
 Proof.
   intros M S HS e args Hwt Hwf.
-  destruct (call_eq_doc M S HS e true args Hwt Hwf) as [l1 [E1 V1]].
-  destruct (call_eq_doc M S HS e false args Hwt Hwf) as [l2 [E2 V2]].
-  exists l1, l2, (snd (call_doc e args)). split; [exact E1|]. split.
-  - cbn [call]. exact E2.
+  destruct (call_eq_doc M S HS e true args Hwt Hwf) as [l1 [r1 [E1 [R1 V1]]]].
+  destruct (call_eq_doc M S HS e false args Hwt Hwf) as [l2 [r2 [E2 [R2 V2]]]].
+  exists l1, l2, r1, r2. split; [exact E1|]. split; [cbn [call]; exact E2|]. split.
+  - rewrite R1, R2. reflexivity.
   - rewrite V1, V2. reflexivity.
 Qed.
 
@@ -593,9 +653,10 @@ Theorem reference_identity :
     call M S e d args = COk (fst (call_doc e args)) (snd (call_doc e args)).
 Proof.
   intros M S HS.
-  induction e as [id th | t id kinds | loc f IHf bs | loc f IHf | f IHf | f IHf | f IHf | f IHf b
+  induction e as [id th | id | t id kinds | loc f IHf bs | loc f IHf | f IHf | f IHf | f IHf | f IHf b
                   | s IHs g IHg | s IHs g1 IHg1 g2 IHg2 | f IHf c | f IHf ts | f IHf];
     intros Hfw d args Hwt Hwf; cbn [wt wf_values all_forwarding class_of] in Hwt, Hwf, Hfw.
+  - reflexivity.
   - reflexivity.
   - cbn [call call_doc]. rewrite Hwt. reflexivity.
   - (* FBind *)
@@ -620,7 +681,8 @@ Proof.
     cbn [call call_doc class_of]. rewrite (pass_forwarding _ d args Hm). apply IHf; assumption.
   - (* FRetypeReturn *)
     apply andb_true_iff in Hfw. destruct Hfw as [Hm Hfw].
-    cbn [call call_doc class_of]. rewrite (pass_forwarding _ d args Hm). apply IHf; assumption.
+    cbn [call call_doc class_of]. rewrite (pass_forwarding _ d args Hm).
+    rewrite (IHf Hfw true args Hwt Hwf). destruct (call_doc f args) as [l r]. reflexivity.
   - (* FHideReturn *)
     apply andb_true_iff in Hfw. destruct Hfw as [Hm Hfw].
     cbn [call call_doc class_of]. rewrite (pass_forwarding _ d args Hm).
@@ -637,9 +699,11 @@ Proof.
     rewrite (IHg Hag true args Hwg Hfg).
     pose proof (call_doc_nonvoid g Hrg args) as Hnv.
     destruct (call_doc g args) as [lg rg]. cbn [cbind fst snd] in *.
-    destruct rg as [v| |]; [|contradiction|reflexivity].
-    rewrite (IHs Has true [mkArg v ICopy] Hws Hfs).
-    destruct (call_doc s [mkArg v ICopy]) as [ls rs]. reflexivity.
+    destruct rg as [v|ra| |]; [| |contradiction|reflexivity]; cbn [result_arg].
+    + rewrite (IHs Has true [mkArg v ICopy] Hws Hfs).
+      destruct (call_doc s [mkArg v ICopy]) as [ls rs]. reflexivity.
+    + rewrite (IHs Has true [ra] Hws Hfs).
+      destruct (call_doc s [ra]) as [ls rs]. reflexivity.
   - (* FCompose2 *)
     apply andb_true_iff in Hfw. destruct Hfw as [Hfw Ha2]. apply andb_true_iff in Hfw. destruct Hfw as [Hfw Ha1].
     apply andb_true_iff in Hfw. destruct Hfw as [Hm Has].
@@ -650,9 +714,12 @@ Proof.
     rewrite (IHg1 Ha1 true args Hw1 Hf1), (IHg2 Ha2 true args Hw2 Hf2).
     pose proof (call_doc_nonvoid g1 Hr1 args) as Hnv1. pose proof (call_doc_nonvoid g2 Hr2 args) as Hnv2.
     destruct (call_doc g1 args) as [lg1 rg1]. destruct (call_doc g2 args) as [lg2 rg2]. cbn [cbind fst snd] in *.
-    destruct rg1 as [v1| |]; [|contradiction|]; (destruct rg2 as [v2| |]; [|contradiction|]); try reflexivity.
-    rewrite (IHs Has true [mkArg v1 ICopy; mkArg v2 ICopy] Hws Hfs).
-    destruct (call_doc s [mkArg v1 ICopy; mkArg v2 ICopy]) as [ls rs]. reflexivity.
+    destruct rg1 as [v1|ra1| |]; [| |contradiction|];
+      (destruct rg2 as [v2|ra2| |]; [| |contradiction|]); cbn [result_arg]; try reflexivity;
+      match goal with
+      | |- context [call_doc s ?xs] =>
+          rewrite (IHs Has true xs Hws Hfs); destruct (call_doc s xs) as [ls rs]; reflexivity
+      end.
   - (* FExcCatch *)
     apply andb_true_iff in Hfw. destruct Hfw as [Hm Hfw].
     cbn [call call_doc class_of]. rewrite (pass_forwarding _ d args Hm).
@@ -673,7 +740,7 @@ Proof.
                               "compose1_functor"; "compose2_functor"; "exception_catch_functor";
                               "track_obj_functor"] -> forwarding (mode_of M k) = true) by exact H.
   clear H.
-  induction e as [id th | t id kinds | loc f IHf bs | loc f IHf | f IHf | f IHf | f IHf | f IHf b
+  induction e as [id th | id | t id kinds | loc f IHf bs | loc f IHf | f IHf | f IHf | f IHf | f IHf b
                   | s IHs g IHg | s IHs g1 IHg1 g2 IHg2 | f IHf c | f IHf ts | f IHf];
     cbn [all_forwarding class_of]; try reflexivity; try exact IHf;
     try (destruct loc);
